@@ -32,6 +32,12 @@ def programs(ctx):
             for generic in (False, True):
                 out.append(fam2.c09_nested_self_prog("p_%04d" % i, op, br, generic))
                 i += 1
+    # further recorded findings (known_findings.jsonl), re-observed on every run: `Self` carried over textually
+    rp = "\npub fn replay(_h: &str, _b: &[u8]) -> (bool, String) { (true, String::new()) }\n"
+    out.append(E.Prog("p_kf_anon_lifetime", "#[derive(Clone)] pub struct Sl<'a>(pub &'a u8);\n#[derive_ex::derive_ex(Sub)]\nimpl core::ops::Sub for Sl<'_> { type Output = Self; fn sub(self, _r: Self) -> Self { self } }\n" + rp, [],
+                      {"describe": "impl Sub for Sl<'_> { type Output = Self; .. }  derive_ex(Sub)"}))
+    out.append(E.Prog("p_kf_self_assoc_const", "#[derive(Clone)] pub struct Sn(pub u8);\nimpl Sn { pub const N: usize = 2; }\n#[derive_ex::derive_ex(Add)]\nimpl core::ops::Add for Sn { type Output = [u8; Self::N]; fn add(self, r: Sn) -> [u8; 2] { [self.0, r.0] } }\n" + rp, [],
+                      {"describe": "impl Add for Sn { type Output = [u8; Self::N]; .. }  derive_ex(Add)"}))
     # the one recorded finding of this property, always re-observed: `Self` in the where-clause of an impl for `&T`
     out.append(fam2.c09_prog("p_%04d" % i, "Sub", True, True, False, ("bin",), generic=True, self_in_where=True))
     return out
